@@ -647,6 +647,10 @@ func stdCall(full string, args []aval) aval {
 		if x, ok := r(0); ok {
 			return boolVal(unicode.IsUpper(x))
 		}
+	case "math.IsNaN":
+		if len(args) == 1 && args[0].k == avConst && (args[0].c.Kind() == constant.Float || args[0].c.Kind() == constant.Int) {
+			return boolVal(false) // no constant is NaN
+		}
 	case "strings.IndexRune", "strings.ContainsRune":
 		if x, ok := r(1); ok {
 			if x < 0 || x > unicode.MaxRune {
